@@ -53,7 +53,7 @@ func TestC14(t *testing.T) {
 		defer mc.Close()
 		defer mc.Guard(t)
 		defer column.SetVerifHook(nil)
-		cfg := TxnCfg{Prop: "C14", MaxSteps: 5, Deletes: true, Inserts: true, Merges: true, NoStoreOnDel: KFActive("f11-store-and-delete-same-txn")}
+		cfg := TxnCfg{Prop: "C14", MaxSteps: 5, Deletes: true, Inserts: true, Merges: true, NoStoreOnDel: KFActive("f11-store-and-delete-same-txn"), NoOpAfterLenMerge: KFActive("f15-difflen-merge-reorder")}
 		// layout: empty, one block, several blocks
 		switch rapid.IntRange(0, 5).Draw(t, "layout") {
 		case 0:
